@@ -369,3 +369,50 @@ def oracle_C09(meta, kw, res):
         elif abs(tev[0] - c) > tol:
             out.append(("root-location", "event %d reported at %r, root is %r (|diff| %.3g > %.3g)" % (i, tev[0], c, abs(tev[0] - c), tol)))
     return out
+
+
+def oracle_C09_steps(meta, kw, res):
+    """the clause as worded, for ANY event functions: when the reported samples are the accepted steps (no t_eval, no
+    first_step, no step budget), a strict sign change of g_i between two consecutive samples in the configured direction
+    has an event of function i inside that step, and equal strict signs have none strictly inside it"""
+    out = []
+    st = res.get("status")
+    if st in ("error", "panic", None) or not kw.get("events"):
+        return out
+    if kw.get("t_eval") is not None or kw.get("first_step") is not None or kw.get("max_steps") is not None:
+        return out
+    ts, ys = res.get("t", []), res.get("y", [])
+    npairs = len(ts) - 1
+    if st == "UserInterrupt":
+        npairs -= 1          # the last sample is the terminal event's point, not a step end
+    for i, ev in enumerate(kw["events"]):
+        dirn = int(ev.split("/", 2)[0])
+        expr = ev.split("/", 2)[2]
+        tev = res.get("tev", {}).get(i, [])
+        try:
+            gs = [eval_expr(expr, t, y) for t, y in zip(ts, ys)]
+        except Exception:
+            continue
+        for k in range(max(0, npairs)):
+            ga, gb = gs[k], gs[k + 1]
+            if not (ga == ga and gb == gb) or ga == 0.0 or gb == 0.0 or abs(ga) == math.inf or abs(gb) == math.inf:
+                continue
+            lo, hi = min(ts[k], ts[k + 1]), max(ts[k], ts[k + 1])
+            inside_closed = [te for te in tev if lo <= te <= hi]
+            inside_open = [te for te in tev if lo < te < hi]
+            if (ga < 0) != (gb < 0):
+                rising = ga < 0          # in the order of integration: from the earlier sample to the later one
+                wanted = dirn == 0 or (dirn > 0 and rising) or (dirn < 0 and not rising)
+                if wanted and not inside_closed:
+                    out.append(("unreported-sign-change", "event %d: g(%r)=%.3g, g(%r)=%.3g, direction %d: no event reported inside the step" %
+                                (i, ts[k], ga, ts[k + 1], gb, dirn)))
+                    break
+                if not wanted and inside_open:
+                    out.append(("filtered-direction-reported", "event %d: sign change against the direction filter %d between %r and %r, but an event is reported at %r" %
+                                (i, dirn, ts[k], ts[k + 1], inside_open[0])))
+                    break
+            elif inside_open:
+                out.append(("event-without-sign-change", "event %d: g has the same strict sign at %r and %r (%.3g, %.3g) but an event is reported at %r" %
+                            (i, ts[k], ts[k + 1], ga, gb, inside_open[0])))
+                break
+    return out
